@@ -156,6 +156,11 @@ def compare(case, obs, replies):
             continue
         if m == 'bad-expr':
             return 'model cannot parse %s' % json.dumps(r['tree'])[:300]
+        if o[0] == 'err' and o[1] not in UNIT_ERRORS and magnitude_trigger(r['tree'], o[1]):
+            # Python float/complex arithmetic on the magnitudes carried along (overflow, 0 ** negative, floor of a
+            # complex): the exact model tracks these only approximately — the ORACLE reports them (known findings),
+            # the correspondence does not insist on predicting them
+            continue
         if m[0] == 'err':
             if o[0] != 'err' or o[1] != m[1].replace('Other:', ''):
                 return 'expr %s: model %s, implementation %s' % (json.dumps(r['tree'])[:400], m, o)
